@@ -5,6 +5,7 @@ mod k10;
 mod k7;
 mod k8;
 mod v1;
+mod v10;
 
 fn main() {
     let args: Vec<String> = std::env::args().collect();
@@ -16,6 +17,8 @@ fn main() {
         "witness-k3" => k3::witness(),
         "fidelity-v5" => k3::fidelity(),
         "fidelity-v6" => k3::fidelity_printer(),
+        "fidelity-v10" => v10::fidelity(),
+        "fidelity-v10-cases" => v10::cases(),
         "replay-k3" => k3::replay(&args[2]),
         "witness-k10" => k10::witness(),
         "replay-k10" => k10::replay(&args[2]),
